@@ -124,6 +124,10 @@ def generate(seed, tier):
     subs = [u("s"), ["b", "n1"], u("o")]
     preds = [u("p"), u("q")]
     objs = [u("o"), ["b", "n1"], ["l", "", None, None], ["l", "0", None, XSD + "integer"], ["l", "false", None, XSD + "boolean"], ["l", "x", "en", None], u("s")]
+    if g.chance(0.25):
+        # IRIs for which the serialisers have to generate a prefix; a local name that ends in "." cannot be written as prefix:local
+        subs = subs + [u("ns#"), u("v/item")]
+        preds = preds + [u("ns#a."), u("v/rel")]
     quads = []
     for _ in range(g.randint(2, 12)):
         gr = None if kind == "graph" else g.choice([None, None, 0, 1, 2])
@@ -518,8 +522,11 @@ def execute(trace, ctx):
             if pf.startswith("result-"):
                 return False
             da, db = Dataset(), Dataset()
-            da.parse(data=a[2], format=pf)
-            db.parse(data=b[2], format=pf)
+            try:
+                da.parse(data=a[2], format=pf)
+                db.parse(data=b[2], format=pf)
+            except Exception:
+                return False  # the two outputs differ and (at least) one of them cannot even be read back
             qa, _ = observe(da.store)
             qb, _ = observe(db.store)
             if iso.isomorphic(qa, qb):
